@@ -508,6 +508,9 @@ class Parser(ExprParser):
             elif self.token.typ == "TYPE_SPECIFIER":
                 node.specifier.append(self.token.value)
                 self.info("type-specifier:", self.token.value)
+                # After a type-specifier, a type-name is the declarator-id.
+                # int Color  (where Color is also an enum)
+                found_type = True
                 self.next()
             elif self.token.typ == "TYPE_QUALIFIER":
                 # const volatile
